@@ -55,6 +55,16 @@ def scenarios(tier, seed):
         "http-proppatch": {"t": "http", "method": "PROPPATCH", "p": "displayname", "v": "Set over HTTP", "as": "prop"},
     }
     out = []
+    # a property goes back to the value it had when the process opened the collection (an
+    # earlier request of the same process had changed it)
+    for kind in ("tree", "bare", "vdir"):
+        for (pname, v0, v1) in (("description", "alpha", "beta"),) + ((("comment", "first", "second"),) if kind != "vdir" else ()):
+            described = [{"t": "put", "n": "a.ics", "data": b1}, {"t": "prop", "p": "description", "v": "alpha"}] + \
+                ([{"t": "prop", "p": "comment", "v": "first"}] if kind != "vdir" else [])
+            out.append({"kind": kind, "prior": "described", "prep": described,
+                        "warm": [{"t": "prop", "p": pname, "v": v1}],
+                        "opname": "prop-%s-back" % pname, "op": {"t": "prop", "p": pname, "v": v0},
+                        "cfgbackend": False})
     prior_names = ["one"] if tier == "quick" else list(priors)
     for kind in ("tree", "bare", "vdir"):
         for pn in prior_names + (["named"] if tier == "quick" else []):
@@ -87,7 +97,8 @@ def _work(sc):
     from .alpha import Interner
     try:
         C = Interner()
-        r = cd.run_op_with_images(sc["kind"], sc["prep"], sc["op"], C, cfgbackend=sc["cfgbackend"])
+        r = cd.run_op_with_images(sc["kind"], sc["prep"], sc["op"], C, cfgbackend=sc["cfgbackend"],
+                                  warm=sc.get("warm", ()))
         op = sc["op"]
         rec = {"kind": sc["kind"] + ("-gitcfg" if sc["cfgbackend"] else ""), "t": op.get("as", op["t"]),
                "n": op.get("n") or op.get("p"), "prior": sc["prior"], "opname": sc["opname"],
